@@ -286,16 +286,17 @@ func (w *world) main() {
 		w.began++ // Attack's own time.Now() ticked once
 	}
 	if p.Second {
-		// the same Attacker is used for a second attack while the first one is running
+		// the same Attacker is used for a second (empty: its pacer stops at once) attack, started by
+		// another thread at any moment while the first one is running
 		w2 := &world{id: w.id, p: p, name: "atk2", parent: w}
-		w2.p.Second = false
+		w2.p.Second, w2.p.N = false, 0
 		w.second = w2
-		w2.began = vsched.ClockPeek()
-		res2 := atk.Attack(w2.targeter, pacer{w2}, p.Du, w2.name)
-		if p.Mode == vsched.ClockTicking {
-			w2.began++
-		}
 		vsched.GoEnv(func() {
+			w2.began = vsched.ClockPeek()
+			if p.Mode == vsched.ClockTicking {
+				w2.began++
+			}
+			res2 := atk.Attack(w2.targeter, pacer{w2}, p.Du, w2.name)
 			for {
 				r, ok := vsched.Recv2(res2)
 				if !ok {
@@ -994,9 +995,9 @@ func c05Plans() []plan {
 	add(params{W0: 2, M: 2, N: 2, Cause: "pacer", FailRT: true}, ev.Pick(2, 3))
 	add(params{W0: 1, M: 1, N: 2, Cause: "pacer", FailRT: true}, -1)
 	// the Attacker is re-used for a second attack while the first one is running
-	add(params{W0: 1, M: 1, N: 1, Cause: "pacer", Second: true}, ev.Pick(2, 3))
+	add(params{W0: 1, M: 1, N: 2, Cause: "pacer", Second: true}, ev.Pick(2, 3))
 	if ev.Thorough() {
-		add(params{W0: 1, M: 1, N: 2, Cause: "pacer", Second: true}, 1)
+		add(params{W0: 2, M: 2, N: 2, Cause: "pacer", Second: true}, 2)
 	}
 	if ev.Thorough() {
 		add(params{W0: 3, M: 3, N: 4, Cause: "pacer"}, 2)
